@@ -13,7 +13,7 @@ Binding:
   above it; TLC decides "solves the equation" (root or crossing), monotonicity, cumulative volume = liquid
   volume of the adsorbed amount, distribution = dV/dW.
 * published equations held by the spec and compared (DecFloat, 1e-4) with the library's potential at every reported
-  width: HK slit, Rege-Yang slit, Rege-Yang sphere.  Not decided: HK cylinder/sphere and Rege-Yang cylinder (DESIGN section 8).
+  width: HK slit, Rege-Yang slit, Rege-Yang sphere; Rege-Yang cylinder: rings, populations and weighting (RYCylJudge).  Not decided: HK cylinder/sphere series, Rege-Yang cylinder per-ring series (DESIGN section 8).
 * points are presented increasing / with neighbours swapped / reversed (every width must solve the equation for ITS
   pressure whatever the order), and histories of psd_microporous(adsorbate_model=None) over adsorbates x temperatures
   are judged call by call like first calls.
@@ -480,7 +480,8 @@ def main(tier, seed):
                    "library's own potential at the chosen lengths (others); evaluation = one pressure point; distinct = (scenario id, raw function | psd_microporous); all non-trivial")
     run.assume("published equations held by the specification and compared with the library's potential at every reported width (1e-4): HK slit (Horvath-Kawazoe 1983), "
                "Rege-Yang slit and sphere (Rege & Yang 2000; the slit one-layer term is the 10-4 potential summed over both walls, the library docstring has its signs wrong). "
-               "NOT decided: fidelity of the HK cylinder/sphere (Saito-Foley, Cheng-Yang) and Rege-Yang cylinder potentials (infinite series, arcsine) - for them only "
+               "Rege-Yang cylinder: ring existence, population rule (single file counts one) and weighting decided by spec/HK.tla RYCylJudge with the per-ring series taken from the library's own routine. "
+               "NOT decided: fidelity of the HK cylinder/sphere (Saito-Foley, Cheng-Yang) series and of the Rege-Yang cylinder per-ring series - for them only "
                "'the reported width solves (or brackets a crossing of) the library's own potential' plus the relational clauses")
     run.assume("Cheng-Yang coverage is n/(1.01*max n) (the library's saturation convention); 'non-decreasing in pressure' is judged against the right-hand side "
                "ln p + CY term of the method's equation")
